@@ -752,3 +752,66 @@ def gen_same_object_case(rng):
     if rng.random() < 0.3:
         t = {"k": "scaled", "c": f2b(pos_dyadic(rng)), "f": t}
     return {"cplx": cplx, "leaves": tg.leaves, "ops": [], "t": t, "shape": [list(s_) for s_ in shape]}
+
+
+# --------------------------------------------------------------------------
+# targeted panels after a broken generated obligation
+
+
+class Collector:
+    """stands in for the run context while a stream is re-run as a failing-input search: nothing is counted, a disagreement
+    is kept only when its property oracle produces a failing input on the implementation"""
+
+    def __init__(self, ctx, boost=2):
+        self.rng = ctx.rng
+        self.thorough = ctx.thorough
+        self.tier = ctx.tier
+        self.boost = boost
+        self.extra = {}
+        self.failing = []
+        self._q = ctx
+
+    def n(self, quick, thorough):
+        v = thorough if self.thorough else quick
+        return v * self.boost if v >= 10 else v  # case counts are boosted, structural bounds (tree depth) are not
+
+    def case(self, *a, **k):
+        pass
+
+    def count(self, *a, **k):
+        pass
+
+    def known_finding(self, *a, **k):
+        return False
+
+    def is_known(self, fid):
+        return False
+
+    def disagree(self, op, case, impl, model, oracle=None, known_id=None, note=""):
+        if oracle is None or len(self.failing) >= 1:
+            return
+        try:
+            r = oracle(case)
+        except Exception:  # noqa: BLE001
+            r = None
+        if r is not None:
+            self.failing.append({"op": op, "case": case, "failing": r, "impl": impl, "model": model})
+
+    def violation(self, replay, found_input, what=""):
+        if found_input and not self.failing:
+            self.failing.append(dict(replay, what=what))
+
+
+def panel(ctx, streams, rows):
+    """run the given stream functions (callables taking a context) as a failing-input search; first failing input or None"""
+    col = Collector(ctx)
+    for fn in streams:
+        try:
+            fn(col)
+        except Exception as e:  # noqa: BLE001  (a stream crashing on the changed code is not a failing input by itself)
+            col.extra.setdefault("panel_errors", []).append(repr(e)[:200])
+        if col.failing:
+            f = col.failing[0]
+            f["differing_table_rows"] = rows
+            return f
+    return None
